@@ -1038,7 +1038,7 @@ def attached_stream(ctx, st=None, record=None):
         ctx.case(key=('attached', init) + tuple(o[:3] for o in q),
                  sample=dict(profiles=[c for c, _ in spec], init=init, ops=ops) if rng.random() < 0.01 else None)
     ctx.count('attached:enumerated', len(plans))
-    for _ in range(ctx.n(60, 1200)):
+    for _ in range(ctx.n(60, 500)):
         spec = make_spec()
         nl = rng.choice([1, 2, 2, 3])
         init = tuple(rng.randrange(3) for _ in range(nl))
